@@ -74,7 +74,7 @@ def run(m):
 
 FUZZ = 0
 FUZZSEED = 0
-TRANSFORMS = 'rename invert swapeq negform demorgan parens constextract hoistcond guard2else switch2if retlocal varform reorder splitinit mergeinit hoistarg ret2else splitand lencmp incr boolret predfunc rangeidx elsenest swapand kvorder caseorder renamefile extractblock countloop'.split()
+TRANSFORMS = 'rename invert swapeq negform demorgan parens constextract hoistcond guard2else switch2if retlocal varform reorder splitinit mergeinit hoistarg ret2else splitand lencmp incr boolret predfunc rangeidx elsenest swapand kvorder caseorder renamefile extractblock countloop flag2counter labelcontinue joinvar'.split()
 
 def main():
     global FUZZ, FUZZSEED
